@@ -63,6 +63,85 @@ pub enum Body {
     Lazy { total: usize, chunk: usize },
     /// the given chunks, then a payload error
     ThenError(Vec<Vec<u8>>),
+    /// chunks delivered only when the shared gate says it is this stream's turn: lets the
+    /// harness enumerate every interleaving of the chunk deliveries of overlapping uploads
+    Gated { chunks: Vec<Vec<u8>>, id: usize, gate: std::sync::Arc<Gate> },
+}
+
+/// Delivery order for `Body::Gated` streams: `order[k]` is the id of the stream that may deliver
+/// its next item (a chunk, or its end-of-body) at step k.
+pub struct Gate {
+    inner: std::sync::Mutex<GateInner>,
+}
+
+struct GateInner {
+    order: Vec<usize>,
+    pos: usize,
+    wakers: Vec<(usize, std::task::Waker)>,
+    gone: Vec<usize>,
+}
+
+impl std::fmt::Debug for Gate {
+    fn fmt(&self, f: &mut std::fmt::Formatter<'_>) -> std::fmt::Result {
+        write!(f, "Gate")
+    }
+}
+
+impl Gate {
+    pub fn new(order: Vec<usize>) -> std::sync::Arc<Gate> {
+        std::sync::Arc::new(Gate { inner: std::sync::Mutex::new(GateInner { order, pos: 0, wakers: vec![], gone: vec![] }) })
+    }
+}
+
+struct GatedStream {
+    id: usize,
+    chunks: std::collections::VecDeque<Bytes>,
+    done: bool,
+    gate: std::sync::Arc<Gate>,
+}
+
+impl futures::Stream for GatedStream {
+    type Item = Result<Bytes, actix_http::error::PayloadError>;
+    fn poll_next(mut self: std::pin::Pin<&mut Self>, cx: &mut std::task::Context<'_>) -> std::task::Poll<Option<Self::Item>> {
+        use std::task::Poll;
+        if self.done {
+            return Poll::Ready(None);
+        }
+        let gate = self.gate.clone();
+        let mut g = gate.inner.lock().unwrap();
+        while g.pos < g.order.len() && g.gone.contains(&g.order[g.pos]) {
+            g.pos += 1;
+        }
+        if g.pos >= g.order.len() || g.order[g.pos] == self.id {
+            if g.pos < g.order.len() {
+                g.pos += 1;
+            }
+            for (_, w) in g.wakers.drain(..) {
+                w.wake();
+            }
+            drop(g);
+            let item = self.chunks.pop_front();
+            if item.is_none() {
+                self.done = true;
+            }
+            Poll::Ready(item.map(Ok))
+        } else {
+            let id = self.id;
+            g.wakers.retain(|(i, _)| *i != id);
+            g.wakers.push((id, cx.waker().clone()));
+            Poll::Pending
+        }
+    }
+}
+
+impl Drop for GatedStream {
+    fn drop(&mut self) {
+        let mut g = self.gate.inner.lock().unwrap();
+        g.gone.push(self.id);
+        for (_, w) in g.wakers.drain(..) {
+            w.wake();
+        }
+    }
 }
 
 pub fn lazy_byte(i: usize) -> u8 {
@@ -95,12 +174,13 @@ impl HttpReq {
                 "chunks{:?}+error",
                 c.iter().map(|x| x.len()).collect::<Vec<_>>()
             ),
+            Body::Gated { chunks, id, .. } => format!("gated#{id}{:?}", chunks.iter().map(|x| x.len()).collect::<Vec<_>>()),
         };
         format!("{} {} [{}] body={}", self.method, self.uri, hs.join("; "), b)
     }
 }
 
-type CallFn = Box<dyn Fn(Request) -> Result<RawHttp, String>>;
+type CallFn = Box<dyn Fn(Request) -> futures::future::LocalBoxFuture<'static, Result<RawHttp, String>>>;
 
 /// The initialised actix service for one `WebServer`.
 pub struct HttpApp {
@@ -110,11 +190,12 @@ pub struct HttpApp {
 impl HttpApp {
     pub fn new(ws: &WebServer) -> HttpApp {
         let ws = ws.clone();
-        let app = block_on(test::init_service(
+        let app = std::rc::Rc::new(block_on(test::init_service(
             App::new().configure(move |cfg| ws.config(cfg)),
-        ));
+        )));
         let call: CallFn = Box::new(move |req: Request| {
-            block_on(async {
+            let app = app.clone();
+            Box::pin(async move {
                 match app.call(req).await {
                     Ok(resp) => {
                         let status = resp.status().as_u16();
@@ -154,9 +235,27 @@ impl HttpApp {
         HttpApp { call }
     }
 
-    /// Build and send one request. Err = the request could not even be constructed
-    /// (syntactically invalid for the in-process service) or the response body failed.
+    /// Two requests in flight at once on this (single-threaded) service, as on one actix worker.
+    pub fn send_pair(&self, a: &HttpReq, b: &HttpReq) -> (Result<RawHttp, String>, Result<RawHttp, String>) {
+        let ra = match self.build(a) {
+            Ok(r) => r,
+            Err(e) => return (Err(e.clone()), Err(e)),
+        };
+        let rb = match self.build(b) {
+            Ok(r) => r,
+            Err(e) => return (Err(e.clone()), Err(e)),
+        };
+        block_on(futures::future::join((self.call)(ra), (self.call)(rb)))
+    }
+
     pub fn send(&self, r: &HttpReq) -> Result<RawHttp, String> {
+        let req = self.build(r)?;
+        block_on((self.call)(req))
+    }
+
+    /// Build one request. Err = the request cannot be constructed (syntactically invalid for the
+    /// in-process service).
+    fn build(&self, r: &HttpReq) -> Result<Request, String> {
         let method =
             Method::from_bytes(r.method.as_bytes()).map_err(|e| format!("bad method: {e}"))?;
         let uri: actix_web::http::Uri = r
@@ -186,6 +285,12 @@ impl HttpApp {
                 items.push(Err(actix_http::error::PayloadError::Incomplete(None)));
                 Box::pin(stream::iter(items))
             }
+            Body::Gated { chunks, id, gate } => Box::pin(GatedStream {
+                id: *id,
+                chunks: chunks.iter().map(|c| Bytes::from(c.clone())).collect(),
+                done: false,
+                gate: gate.clone(),
+            }),
             Body::Lazy { total, chunk } => {
                 let total = *total;
                 let chunk = (*chunk).max(1);
@@ -198,6 +303,6 @@ impl HttpApp {
             }
         };
         let (req, _old) = req.replace_payload(actix_http::Payload::Stream { payload });
-        (self.call)(req)
+        Ok(req)
     }
 }
